@@ -56,20 +56,22 @@ func statFor(kind string) *SolverStats {
 }
 
 type Solver struct {
-	kind    string
-	mode    int
-	cmd     *exec.Cmd
-	in      io.WriteCloser
-	out     *bufio.Reader
-	names   map[*Term]string
-	vnames  map[string]bool
-	script  []string
-	fresh   int
-	timeout time.Duration
-	approx  int // over-approximated operations (sound for unsat only)
-	dead    bool
-	st      *SolverStats
+	kind         string
+	mode         int
+	cmd          *exec.Cmd
+	in           io.WriteCloser
+	out          *bufio.Reader
+	names        map[*Term]string
+	vnames       map[string]bool
+	script       []string
+	fresh        int
+	timeout      time.Duration
+	approx       int // over-approximated operations (sound for unsat only)
+	dead         bool
+	st           *SolverStats
 	usePortfolio bool
+	oneShot      bool
+	pfCap        time.Duration
 	varOrder     []string
 	pfModel      map[string]uint64
 }
@@ -88,11 +90,18 @@ func solverArgv(kind string) []string {
 
 func NewSolver(kind string, mode int, timeout time.Duration) *Solver {
 	s := &Solver{kind: kind, mode: mode, timeout: timeout, st: statFor(kind)}
+	if kind == "oneshot" {
+		s.oneShot = true
+		s.pfCap = timeout
+	}
 	s.spawn()
 	return s
 }
 
 func (s *Solver) spawn() {
+	if s.oneShot {
+		return
+	}
 	argv := solverArgv(s.kind)
 	s.cmd = exec.Command(argv[0], argv[1:]...)
 	in, _ := s.cmd.StdinPipe()
@@ -115,7 +124,7 @@ func (s *Solver) preamble() {
 }
 
 func (s *Solver) raw(cmd string) {
-	if s.dead {
+	if s.dead || s.oneShot {
 		return
 	}
 	if _, err := io.WriteString(s.in, cmd+"\n"); err != nil {
@@ -129,6 +138,9 @@ func (s *Solver) send(cmd string) {
 }
 
 func (s *Solver) Close() {
+	if s.oneShot {
+		return
+	}
 	if s.cmd != nil && s.cmd.Process != nil {
 		s.in.Close()
 		s.cmd.Process.Kill()
@@ -144,6 +156,9 @@ func (s *Solver) Reset() {
 	s.fresh = 0
 	s.varOrder = nil
 	s.pfModel = nil
+	if s.oneShot {
+		return
+	}
 	if s.dead {
 		s.Close()
 		s.spawn()
@@ -289,12 +304,25 @@ func (s *Solver) bodyBV(t *Term, a []string) string {
 		return fmt.Sprintf("(- %s)", a[0])
 	case OpFFloor:
 		return fmt.Sprintf("(to_real (to_int %s))", a[0])
+	case OpFCeil:
+		return fmt.Sprintf("(- (to_real (to_int (- %s))))", a[0])
 	}
 	// float arithmetic, int<->float conversions: unconstrained in BV mode
 	return ""
 }
 
 func (s *Solver) sg(x string, w int) string {
+	if len(x) > 0 && x[0] >= '0' && x[0] <= '9' {
+		v := new(big.Int)
+		if _, ok := v.SetString(x, 10); ok {
+			half := new(big.Int).Lsh(big.NewInt(1), uint(w-1))
+			if v.Cmp(half) < 0 {
+				return x
+			}
+			v.Sub(v, new(big.Int).Lsh(big.NewInt(1), uint(w)))
+			return "(- " + new(big.Int).Neg(v).String() + ")"
+		}
+	}
 	return fmt.Sprintf("(ite (< %s %s) %s (- %s %s))", x, pow2(w-1), x, x, pow2(w))
 }
 
@@ -394,6 +422,8 @@ func (s *Solver) bodyInt(t *Term, a []string) string {
 		return fmt.Sprintf("(- %s)", a[0])
 	case OpFFloor:
 		return fmt.Sprintf("(to_real (to_int %s))", a[0])
+	case OpFCeil:
+		return fmt.Sprintf("(- (to_real (to_int (- %s))))", a[0])
 	case OpFAdd, OpFSub, OpFMul, OpFDiv:
 		op := map[Op]string{OpFAdd: "+", OpFSub: "-", OpFMul: "*", OpFDiv: "/"}[t.Op]
 		r := s.freshName("fl")
@@ -406,10 +436,11 @@ func (s *Solver) bodyInt(t *Term, a []string) string {
 		if t.A == 1 {
 			v = s.sg(a[0], t.Args[0].S.W)
 		}
+		// exact for |v| <= 2^53; otherwise a correctly rounded neighbour (relative error 2^-53)
 		r := s.freshName("fl")
 		s.send(fmt.Sprintf("(declare-const %s Real)", r))
-		s.roundAxioms(r, fmt.Sprintf("(to_real %s)", v))
-		return r
+		s.send(fmt.Sprintf("(assert (let ((q (to_real %s))) (let ((aq (ite (>= q 0.0) q (- q)))) (and (<= (- %s q) (* %s aq)) (<= (- q %s) (* %s aq))))))", v, r, eps53, r, eps53))
+		return fmt.Sprintf("(let ((v %s)) (ite (and (<= v 9007199254740992) (>= v (- 9007199254740992))) (to_real v) %s))", v, r)
 	case OpF2I:
 		// in-range: truncation toward zero; out of range: unspecified
 		u := s.freshName("f2i")
@@ -477,6 +508,23 @@ func (s *Solver) Check(lit *Term, neg bool) Result {
 	atomic.AddInt64(&s.st.Queries, 1)
 	res := Unknown
 	s.pfModel = nil
+	if s.oneShot {
+		res = s.portfolio(cmd)
+		atomic.AddInt64(&s.st.WallNs, int64(time.Since(t0)))
+		if d := os.Getenv("SYMGO_DUMP_UNKNOWN"); d != "" && res == Unknown {
+			n := atomic.AddInt64(&dumpN, 1)
+			os.WriteFile(fmt.Sprintf("%s/q%03d.smt2", d, n), []byte(strings.Join(s.script, "\n")+"\n"+cmd+"\n"), 0o644)
+		}
+		switch res {
+		case Sat:
+			atomic.AddInt64(&s.st.Sat, 1)
+		case Unsat:
+			atomic.AddInt64(&s.st.Unsat, 1)
+		default:
+			atomic.AddInt64(&s.st.Unknown, 1)
+		}
+		return res
+	}
 	if s.dead {
 		s.respawnReplay()
 	}
@@ -500,6 +548,10 @@ func (s *Solver) Check(lit *Term, neg bool) Result {
 		}
 	}
 	atomic.AddInt64(&s.st.WallNs, int64(time.Since(t0)))
+	if d := os.Getenv("SYMGO_DUMP_UNKNOWN"); d != "" && res == Unknown {
+		n := atomic.AddInt64(&dumpN, 1)
+		os.WriteFile(fmt.Sprintf("%s/q%03d.smt2", d, n), []byte(strings.Join(s.script, "\n")+"\n"+cmd+"\n"), 0o644)
+	}
 	if res == Unknown && s.usePortfolio {
 		res = s.portfolio(cmd)
 	}
@@ -546,6 +598,10 @@ func (s *Solver) portfolio(cmd string) Result {
 		r Result
 		m map[string]uint64
 	}
+	portfolioCap := portfolioCap
+	if s.pfCap > 0 {
+		portfolioCap = s.pfCap
+	}
 	kinds := [][]string{{"z3", "z3", "-T:" + fmt.Sprint(int(portfolioCap.Seconds())), f.Name()}, {"z3new", "z3-new", "-T:" + fmt.Sprint(int(portfolioCap.Seconds())), f.Name()},
 		{"cvc5", "cvc5", "--lang", "smt2", "--tlimit=" + fmt.Sprint(portfolioCap.Milliseconds()), f.Name()}}
 	ch := make(chan ans, len(kinds))
@@ -561,14 +617,19 @@ func (s *Solver) portfolio(cmd string) Result {
 			atomic.AddInt64(&st.WallNs, int64(time.Since(t0)))
 			r := Unknown
 			o := string(out)
-			if !strings.Contains(o, "(error") {
-				for _, l := range strings.Split(o, "\n") {
-					l = strings.TrimSpace(l)
-					if l == "sat" {
-						r = Sat
-					} else if l == "unsat" {
-						r = Unsat
-					}
+			for _, l := range strings.Split(o, "\n") {
+				l = strings.TrimSpace(l)
+				if strings.Contains(l, "(error") || strings.Contains(l, "rror:") {
+					break // an error before the verdict makes it inconclusive
+				}
+				if l == "sat" {
+					r = Sat
+					break
+				} else if l == "unsat" {
+					r = Unsat
+					break
+				} else if l == "unknown" || l == "timeout" {
+					break
 				}
 			}
 			var m map[string]uint64
@@ -621,6 +682,7 @@ func (s *Solver) portfolio(cmd string) Result {
 
 var portfolioCap = 60 * time.Second
 var gSolverConflicts int64
+var dumpN int64
 
 // GetValues returns model values of named variables after a sat answer from the
 // resident solver (not the portfolio).
